@@ -1,0 +1,33 @@
+//go:build verif
+
+package sharedfile
+
+import "github.com/go-git/go-git/v6/x/fdpool"
+
+// VerifState is a snapshot of the lifecycle fields of a SharedFile, taken
+// under s.mu, for trace validation by the verification harness.
+type VerifState struct {
+	Open           bool // s.file != nil
+	Refs           int
+	Gen            uint64
+	TimerSet       bool // s.timer != nil
+	Closed         bool
+	ImmediateClose bool
+}
+
+// VerifState returns the current lifecycle state.
+func (s *SharedFile) VerifState() VerifState {
+	s.mu.Lock()
+	defer s.mu.Unlock()
+	return VerifState{
+		Open:           s.file != nil,
+		Refs:           s.refs,
+		Gen:            s.gen,
+		TimerSet:       s.timer != nil,
+		Closed:         s.closed,
+		ImmediateClose: s.immediateClose,
+	}
+}
+
+// VerifPoolHandle returns the per-member pool registration token.
+func (s *SharedFile) VerifPoolHandle() *fdpool.Handle { return &s.poolHandle }
